@@ -490,9 +490,9 @@ def run():
             ck.violation("history %s hangs or aborts" % name, {"steps": steps, "got": answers[0]}); continue
         if name == "log-restart":
             last = outs[-1]
-            if last != ref_plain:
+            if last != ref_plain or any("panic" in json.dumps(o)[:40] for o in outs):
                 ck.disagreement("after debug::log_start was called while a log was active, compile() no longer works",
-                                {"history": steps, "got": last, "fresh": ref_plain, "kind": "log-restart"},
+                                {"history": steps, "got": outs, "fresh": ref_plain, "kind": "log-restart"},
                                 lambda c: "F10h-debug-log-restart-poisons-lock" if "PoisonError" in json.dumps(c["got"]) else None)
         elif name in ("log-after-panic", "log-normal"):
             for st, o in zip(steps, outs):
@@ -506,6 +506,21 @@ def run():
             ck.coverage["env_dependence"] = {"signature_changes_with_PRQL_VERSION_OVERRIDE": first != mid, "restored_after_unset": first == last}
             if first != ref_sig or first != last:
                 ck.violation("compile() keeps state from an earlier PRQL_VERSION_OVERRIDE", {"history": steps, "outs": outs, "fresh": ref_sig})
+
+    # the debug API used concurrently with a compilation (F10j)
+    race = {"src": "from t | take 3", "format": False, "sig": False, "only_sql": True, "compiles": 60, "restarts": 20000}
+    for k, ans in enumerate(run_procs("c11_lograce", [[race] for _ in range(ck.n(2, 6))], timeout=300)):
+        a = ans[0]
+        ck.count("api-concurrent", "race-%d" % k)
+        if not isinstance(a, dict) or "after" not in a:
+            ck.violation("concurrent log restart hangs or aborts the process", {"req": race, "got": a}); continue
+        ck.stat("api-concurrent", "poisoned" if a["after"] != a["before"] else "survived")
+        if a["after"] != a["before"] or a.get("panics_during"):
+            ck.disagreement("restarting the debug log while another thread compiles breaks compile() for the rest of the process",
+                            {"req": race, "got": a, "kind": "log-race"},
+                            lambda c: "F10j-concurrent-log-restart-underflow"
+                            if "PoisonError" in json.dumps(c["got"]["after"]) + json.dumps(c["got"]["panics_during"])
+                            and any("subtract with overflow" in m or "PoisonError" in m for m in c["got"]["panics_during"]) else None)
 
     ck.proof_broken_violation(found_input=any(not ni for _, _, ni in ck.violations))
     ck.assumptions += [
